@@ -1566,6 +1566,18 @@ class H2Connection:
         events = self.state_machine.process_input(
             ConnectionInputs.RECV_HEADERS
         )
+
+        # Only clients open streams with HEADERS: a server opens its streams
+        # with PUSH_PROMISE, so a client has to know the stream already.
+        if (self.config.client_side and
+                frame.stream_id not in self.streams and
+                frame.stream_id % 2 == 0 and
+                frame.stream_id > self.highest_inbound_stream_id):
+            raise ProtocolError(
+                "HEADERS frame on stream %d, which was never promised" %
+                frame.stream_id
+            )
+
         stream = self._get_or_create_stream(
             frame.stream_id, AllowedStreamIDs(not self.config.client_side)
         )
